@@ -340,16 +340,16 @@ impl Monitor for C03 {
     fn run_case(&self, stream: &str, idx: u64, seed: u64, rec: &mut Recorder) {
         if stream.starts_with("v1-") {
             let input = v1_case(stream, idx, seed);
-            drive(&input, "v1", rec);
+            spec::sib::run_v1(&input, idx, 4, |x| drive(x, "v1", rec));
         } else if stream.starts_with("v2-") {
             crate::c02::SCRATCH.with(|b| {
                 let mut b = b.borrow_mut();
                 v2_case(stream, idx, seed, &mut b);
-                drive(&b, "v2", rec);
+                spec::sib::run_v2(&b, idx, 4, |x| drive(x, "v2", rec));
             });
         } else {
             let s = tlv_case(stream, idx, seed);
-            drive(&s, "tlv", rec);
+            spec::sib::run_tlv(&s, idx, 4, |x| drive(x, "tlv", rec));
         }
     }
     fn floor(&self, tier: Tier) -> Vec<&'static str> {
